@@ -310,8 +310,9 @@ class Ctx:
         entry's `signature_regex`)."""
         for k in self.known:
             if k.get("signature") == signature or (k.get("signature_regex") and re.fullmatch(k["signature_regex"], signature)):
-                if signature not in [h[0] for h in self.known_hits]:
-                    self.known_hits.append((signature, k.get("what", what)))
+                kid = k.get("signature") or k.get("signature_regex")
+                if kid not in [h[2] for h in self.known_hits]:
+                    self.known_hits.append((signature, k.get("what", what), kid))
                 return False
         if len(self.violations) < 50:
             obj = dict(replay_obj) if isinstance(replay_obj, dict) else {"replay": replay_obj}
@@ -346,7 +347,7 @@ class Ctx:
             pc = self.proof_coverage()
             for k, v in pc.items(): cov.setdefault(k, v)
         cov.setdefault("trusted_base", [])
-        cov["known_findings_seen"] = [s for s, _ in self.known_hits]
+        cov["known_findings_seen"] = [h[2] for h in self.known_hits]
         cov["violations_reported"] = [s for s, _, _, _ in self.violations]
         if self.notes: cov["notes"] = self.notes[:40]
         ev = {"property_id": self.pid, "tier": self.tier, "seed": self.seed, "level": level, "coverage": cov,
@@ -354,8 +355,8 @@ class Ctx:
               "violations": len(self.violations)}
         with open(os.path.join(VERIF, "evidence", "%s.json" % self.pid), "w") as f:
             json.dump(ev, f, indent=1, default=str)
-        for sig, what in self.known_hits:
-            print("KNOWN-FINDING: property=%s %s [%s]" % (self.pid, what, sig))
+        for sig, what, kid in self.known_hits:
+            print("KNOWN-FINDING: property=%s %s [%s]" % (self.pid, what, kid))
         for sig, what, path, no_input in self.violations:
             sys.stderr.write("violation: %s -- %s\n" % (sig, what))
         for sig, what, path, no_input in self.violations[:10]:
